@@ -39,6 +39,8 @@ def gen(rng, tier, i):
     return plan
 
 
+gen = _gen.with_lines(gen, ['handle_request', 'close', 'disconnect', 'send', '_websocket_handler', '_service_task'])
+
 def run(plan, sched_values=None, sched_seed=0):
     h = run_server_scenario(plan, sched_values, sched_seed)
     f = oracles.Facts(h)
